@@ -5,3 +5,6 @@ import PGV.Model.RuleText
 import PGV.Spec.RuleText
 import PGV.Driver.Common
 import PGV.Driver.C14
+import PGV.Model.LRU
+import PGV.Spec.LRU
+import PGV.Driver.C09
